@@ -121,14 +121,17 @@ class Ctx:
         self._facts = {}
         self.scans = []
         self._thash = None
+        self.default_features = DEFAULT_FEATURES
 
     def thash(self):
         if self._thash is None:
             self._thash = tree_hash(self.repo)
         return self._thash
 
-    def facts(self, features=DEFAULT_FEATURES):
-        features = tuple(sorted(features))
+    def facts(self, features=None):
+        if features is None:
+            features = self.default_features
+        features = tuple(sorted(effective(features)))
         if features in self._facts:
             return self._facts[features]
         os.makedirs(CACHE, exist_ok=True)
@@ -201,6 +204,8 @@ def main(argv):
     ctx = Ctx(prop, a.tier, a.repo)
     rep = Report(prop)
     mod.run(ctx, rep)
+    if a.tier == "thorough":
+        thorough_extras(ctx, rep, mod, prop)
 
     known, _fixed = load_known_findings()
     known_keys = {k["key"]: k for k in known if k["property"] == prop}
@@ -273,6 +278,51 @@ def main(argv):
     print("%s tier=%s obligations=%d discharged=%d violations=%d known=%d wall=%.1fs"
           % (prop, a.tier, n_obl, n_dis, len(real), len(suppressed), time.time() - t0))
     return 1 if real else 0
+
+
+def thorough_extras(ctx, rep, mod, prop):
+    """thorough tier, common part: (1) the same rules in every other distinct feature configuration in which their scope
+    exists, (2) the control-mutant self-test of this property (each seeded single-edit mutant must be reported, each
+    behaviour-preserving edit must stay silent)."""
+    seen = {tuple(sorted(effective(DEFAULT_FEATURES)))}
+    if not getattr(mod, "CONFIG_HANDLED", False):
+        for fs in FEATURE_SETS:
+            e = tuple(sorted(effective(fs)))
+            if e in seen:
+                continue
+            seen.add(e)
+            if "std" in getattr(mod, "REQUIRES", ()) and "std" not in e:
+                continue
+            if "to_str" in getattr(mod, "REQUIRES", ()) and "to_str" not in e:
+                continue
+            sub = Report(prop)
+            c2 = Ctx(prop, "quick", ctx.repo)
+            c2._facts, c2.scans, c2._thash = ctx._facts, ctx.scans, ctx._thash
+            c2.default_features = e
+            mod.run(c2, sub)
+            tag = "[%s] " % ("+".join(e) or "no-features")
+            for o in sub.obligations:
+                o = dict(o, key=tag + o["key"])
+                rep.obligations.append(o)
+            for v in sub.violations:
+                v.key = tag + v.key
+                rep.violations.append(v)
+    # control mutants
+    import subprocess
+    r = subprocess.run([sys.executable, os.path.join(VERIF, "tools", "controls.py"), "run", "--prop", prop, "--jobs", "12"],
+                       capture_output=True, text=True, env=dict(os.environ, VERIF_REPO=ctx.repo))
+    n = 0
+    for line in r.stdout.splitlines():
+        parts = line.split(None, 3)
+        if len(parts) >= 3 and parts[0] == prop:
+            n += 1
+            cid, status = parts[1], parts[2]
+            msg = parts[3] if len(parts) > 3 else ""
+            if status in ("caught", "caught-elsewhere", "silent-ok", "skipped"):
+                rep.ok("self-test", "control:" + cid, "-", status + (": " + msg[:160] if status == "skipped" else ""))
+            else:
+                rep.bad("self-test", "control:" + cid, "-", "control mutant %s: %s %s" % (cid, status, msg[:200]))
+    rep.info["control_mutants"] = n
 
 
 def _per_rule(obls):
